@@ -39,11 +39,32 @@ def perm(M):
     return total
 
 
+def perm_cut(env, M, name):
+    """permanent by Laplace expansion along rows, every sub-permanent of size >= 2 enclosed (Env.enclose): the same
+    defining sum, cut into lemmas with at most n products of two enclosed values each"""
+    n = M.shape[0]
+    memo = {}
+
+    def rec(r, cols):
+        if r == n:
+            return 1
+        if r == n - 1:
+            return M[r, cols[0]]
+        key = (r, cols)
+        if key not in memo:
+            total = 0
+            for k, c in enumerate(cols):
+                total = total + M[r, c] * rec(r + 1, cols[:k] + cols[k + 1:])
+            memo[key] = env.enclose(total, "%s sub-permanent rows %d.. cols %s" % (name, r, list(cols)))
+        return memo[key]
+    return rec(0, tuple(range(n)))
+
+
 def repeat_index(occ):
     return [i for i, k in enumerate(occ) for _ in range(k)]
 
 
-def fock_element(env, U, out, inp):
+def fock_element(env, U, out, inp, cut=None):
     """<out| U_n |in> = perm(U[out | in]) / sqrt(prod out! prod in!)  (definition)"""
     if sum(out) != sum(inp):
         return 0
@@ -52,7 +73,9 @@ def fock_element(env, U, out, inp):
     norm = 1
     for k in list(out) + list(inp):
         norm *= math.factorial(k)
-    return perm(sub) / env.np.sqrt(norm) if rows else 1
+    if not rows:
+        return 1
+    return (perm_cut(env, sub, cut) if cut else perm(sub)) / env.np.sqrt(norm)
 
 
 def embed_matrix(env, M, modes, d):
